@@ -285,6 +285,30 @@ VARIANTS["C03"] = [
     R("subfaces-ascending-range", SC, "            for n in range(size, 2, -1):\n                for face in combinations(simplex, n - 1):\n                    faces.append(face)", "            for k in range(2, size):\n                for face in combinations(simplex, k):\n                    faces.append(face)"),
 ]
 
+# --------------------------------------------------------------------------- C06
+VARIANTS["C06"] = [
+    M("clear_edges-rebinds-edge-table", HG, "        self._edge.clear()\n        self._edge_attr.clear()\n\n    def merge_duplicate_edges", "        self._edge = self._edge_dict_factory()\n        self._edge_attr.clear()\n\n    def merge_duplicate_edges", "V-REBIND", "clear_edges"),
+    M("clear-rebinds-node-table", DH, "        self._node.clear()\n        self._node_attr.clear()\n        self._edge.clear()", "        self._node = self._node_dict_factory()\n        self._node_attr.clear()\n        self._edge.clear()", "V-REBIND", "clear"),
+    M("view-copies-table", VW, "            self._id_dict = None if self._net is None else network._node\n            self._id_attr = None if self._net is None else network._node_attr", "            self._id_dict = None if self._net is None else dict(network._node)\n            self._id_attr = None if self._net is None else network._node_attr", "V-LIVE", "__init__"),
+    M("from_view-snapshot", VW, "        if bunch is None:\n            newview._ids = view._id_dict", "        if bunch is None:\n            newview._ids = list(view._id_dict)", "V-LIVE", "from_view"),
+    M("from_view-bunch-order", VW, "            newview._ids = [i for i in view._id_dict if i in bunch]", "            newview._ids = [i for i in bunch if i in view._id_dict]", "V-ORDER", "from_view"),
+    M("setstate-no-edgeview", HG, "        self._nodeview = NodeView(self)\n        self._edgeview = EdgeView(self)\n\n    def __init__", "        self._nodeview = NodeView(self)\n\n    def __init__", "V-REBIND", "__setstate__"),
+    M("stat-cached-on-object", ST, "    @property\n    def _val(self):\n        return self.func(self.net, self.view.ids, *self.args, **self.kwargs)", "    @property\n    def _val(self):\n        if not hasattr(self, \"_cached\"):\n            self._cached = self.func(self.net, self.view.ids, *self.args, **self.kwargs)\n        return self._cached", "V-NOCACHE", "_val"),
+    M("stat-func-lru-cache", "xgi/stats/edgestats.py", "def order(net, bunch, degree=None):", "@lru_cache(maxsize=None)\ndef order(net, bunch, degree=None):", "V-NOCACHE", "order"),
+    M("aslist-set-order", ST, "        val = self._val\n        return [val[n] for n in self.view]\n\n    def asnumpy(self):\n        \"\"\"Output the stat as a numpy array.\"\"\"", "        val = self._val\n        return [val[n] for n in self.view.ids]\n\n    def asnumpy(self):\n        \"\"\"Output the stat as a numpy array.\"\"\"", "V-ORDER", "aslist"),
+    M("aspandas-raw-val", ST, "        return pd.Series(self.asdict(), name=self.name)", "        return pd.Series(self._val, name=self.name)", "V-ORDER", "aspandas"),
+    M("asdict-sorted", ST, "        val = self._val\n        return {n: val[n] for n in self.view}\n\n    def aslist(self):", "        val = self._val\n        return {n: val[n] for n in sorted(self.view)}\n\n    def aslist(self):", "V-ORDER", "asdict"),
+    M("argsort-raw-val", ST, "        d = self.asdict()\n        return sorted(d, key=d.get, reverse=reverse)", "        d = self._val\n        return sorted(d, key=d.get, reverse=reverse)", "V-ORDER", "argsort"),
+    M("filterby-lt-is-leq", VW, "            bunch = [idx for idx in self if values[idx] < val]\n        elif mode == \"gt\":", "            bunch = [idx for idx in self if values[idx] <= val]\n        elif mode == \"gt\":", "V-FILTER", "filterby"),
+    M("filterby_attr-geq-is-gt", VW, "                idx for idx in self if values[idx] is not None and values[idx] >= val\n", "                idx for idx in self if values[idx] is not None and values[idx] > val\n", "V-FILTER", "filterby_attr"),
+    M("filterby-between-open", VW, "            bunch = [node for node in self if val[0] <= values[node] <= val[1]]", "            bunch = [node for node in self if val[0] <= values[node] < val[1]]", "V-FILTER", "filterby"),
+    M("filterby-iterates-ids", VW, "            bunch = [idx for idx in self if values[idx] == val]\n        elif mode == \"neq\":\n            bunch = [idx for idx in self if values[idx] != val]\n        elif mode == \"lt\":", "            bunch = [idx for idx in values if values[idx] == val]\n        elif mode == \"neq\":\n            bunch = [idx for idx in self if values[idx] != val]\n        elif mode == \"lt\":", "V-FILTER", "filterby"),
+    M("filterby-returns-fresh-view", VW, "                \"'eq', 'neq', 'lt', 'gt', 'leq', 'geq', or 'between'.\"\n            )\n        return type(self).from_view(self, bunch)\n\n    def filterby_attr", "                \"'eq', 'neq', 'lt', 'gt', 'leq', 'geq', or 'between'.\"\n            )\n        return type(self)(self._net, bunch)\n\n    def filterby_attr", "V-FILTER", "filterby"),
+    R("filterby-flipped-operands", VW, "            bunch = [idx for idx in self if values[idx] < val]\n        elif mode == \"gt\":", "            bunch = [idx for idx in self if val > values[idx]]\n        elif mode == \"gt\":"),
+    R("aslist-from-asdict", ST, "        val = self._val\n        return [val[n] for n in self.view]\n\n    def asnumpy(self):\n        \"\"\"Output the stat as a numpy array.\"\"\"", "        return list(self.asdict().values())\n\n    def asnumpy(self):\n        \"\"\"Output the stat as a numpy array.\"\"\""),
+    R("clear_edges-in-place-loop", HG, "        for node in self.nodes:\n            self._node[node] = set()\n        self._edge.clear()", "        for node in self._node:\n            self._node[node] = set()\n        self._edge.clear()"),
+]
+
 
 def variants_for(prop):
     return list(VARIANTS.get(prop, []))
